@@ -57,8 +57,21 @@ var c04Queries = []string{
 	`{ solo { ... on B { bOnly } } node(as:"A") { ... on A { solo { ... on B { id nn { sNN } } } } } c { solo { ... on B { bOnly } } } }`,
 	`{ a { ...P } c { ...P } b { ...P } nodes(n:3) { ...P } } fragment P on Node { peer(as:"B") { id } ... on A { peer(as:"B") { ... on B { bOnly } } } ... on C { peer(as:"B") { name } } }`,
 	`{ nodes(n:3, as:"A") { ... on A { u(as:"B") { ... on B { id } } } } a { u(as:"B") { ... on B { id bOnly } } } u(as:"A") { ... on A { u(as:"B") { ... on B { name } } } } }`,
+	`query($no:Boolean = false, $yes:Boolean = true){ ... @include(if:$no) { ...G x3 } ... @skip(if:$yes) { ...G } ...H @skip(if:$no) x1 } fragment G on Query { x2 leafy { sNN s } } fragment H on Query { x4 ... @include(if:$no) { ...G } }`,
+	`{ echo(i:1, s:"k") ... @skip(if:true) { x1 leafy { sNN } } ... @include(if:true) { x2 } a { ... on A @skip(if:true) { aOnly } ... on Node @include(if:true) { id } items(n:2) { n } } }`,
 	`mutation { m1(v:1) { id nn { sNN } } s1(v:2) m2(v:3) { nodes(n:2) { id } } }`,
 	`mutation { deep { dNN { vNN } v } node(as:"B") { id ... on B { nn { s } } } s2(v:1) }`,
+}
+
+// variables of pool queries (the declared defaults say the same)
+var c04Vars = map[string]map[string]interface{}{}
+
+func init() {
+	for _, q := range c04Queries {
+		if strings.HasPrefix(q, "query($no:Boolean") {
+			c04Vars[q] = map[string]interface{}{"no": false, "yes": true}
+		}
+	}
 }
 
 type C04Scn struct {
@@ -78,7 +91,7 @@ func (c04) ID() string { return "C04" }
 
 // fault kinds applicable per position class
 var (
-	c04Any      = []string{FErr, FValErr, FPanicErr, FPanicStr, FPanicInt, FNil, FTypedNil, FThunk, FThunkErr, FThunkPanic, FThunkNil, FThunkBad, FThunkValErr}
+	c04Any      = []string{FErr, FValErr, FPanicErr, FPanicStr, FPanicInt, FNil, FTypedNil, FThunk, FThunkErr, FThunkPanic, FThunkNil, FThunkBad, FThunkValErr, FForeignErr}
 	c04Leaf     = []string{FWrongKind, FNaN, FBigInt, FBigIntStr, FBadEnum}
 	c04List     = []string{FWrongKind, FNotIter, FElemThunk}
 	c04LeafList = []string{FElemPanic}
@@ -133,7 +146,7 @@ func c04Analyse(q string) *c04Info {
 		root = "Mutation"
 	}
 	rc := &ReqCtx{Task: "base", W: w, RootTok: Tok{T: root}}
-	res := graphql.Do(graphql.Params{Schema: w.Schema, RequestString: q, Context: WithReq(context.Background(), rc)})
+	res := graphql.Do(graphql.Params{Schema: w.Schema, RequestString: q, VariableValues: c04Vars[q], Context: WithReq(context.Background(), rc)})
 	if len(res.Errors) > 0 {
 		panic("c04: baseline of " + q + " has errors: " + MarshalResult(res))
 	}
@@ -190,7 +203,7 @@ func (c04) EnumSize(tier string) int {
 			n += len(ci.Kinds[p.Path])
 		}
 	}
-	return n * 2 // both entry points
+	return n * 3 // do, prepared plan, normalising cache
 }
 
 func c04FaultKey(kind, path string) string {
@@ -206,8 +219,8 @@ func c04FaultKey(kind, path string) string {
 func (p c04) Gen(seed uint64, enum int, tier string) json.RawMessage {
 	s := C04Scn{Faults: map[string]string{}}
 	if enum >= 0 {
-		s.Entry = []string{"do", "plan"}[enum%2]
-		enum /= 2
+		s.Entry = []string{"do", "plan", "cache-norm"}[enum%3]
+		enum /= 3
 		for _, q := range c04Queries {
 			ci := c04Analyse(q)
 			for _, pos := range ci.Positions {
@@ -229,7 +242,7 @@ func (p c04) Gen(seed uint64, enum int, tier string) json.RawMessage {
 	r := NewRNG(seed)
 	s.Query = c04Queries[r.Intn(len(c04Queries))]
 	ci := c04Analyse(s.Query)
-	s.Entry = []string{"do", "plan"}[r.Intn(2)]
+	s.Entry = []string{"do", "plan", "cache-norm"}[r.Intn(3)]
 	s.Order = uint32(r.Intn(4))
 	s.Salt = r.Uint64() % 1000
 	n := 1 + r.Intn(4)
@@ -536,15 +549,26 @@ func (c04) Run(t TestingT, scn json.RawMessage, tape *Tape) *Outcome {
 				escaped = r
 			}
 		}()
-		if sc.Entry == "plan" {
+		vars := c04Vars[sc.Query]
+		if sc.Entry == "cache-norm" {
+			// through the normalising plan cache (second Get = hit)
+			cache := graphql.NewPlanCache(graphql.PlanCacheOptions{Normalize: true})
+			cache.Get(&w.Schema, sc.Query, "")
+			pr := cache.Get(&w.Schema, sc.Query, "")
+			if pr.Plan == nil {
+				res = &graphql.Result{Errors: pr.Errors}
+			} else {
+				res = graphql.ExecutePlan(pr.Plan, graphql.ExecuteParams{Schema: w.Schema, Args: mergeArgs(vars, pr.SynthArgs), Context: ctx})
+			}
+		} else if sc.Entry == "plan" {
 			doc, _ := parseDoc(sc.Query)
 			plan, err := graphql.PlanQuery(&w.Schema, doc, "")
 			if err != nil {
 				panic("plan: " + err.Error())
 			}
-			res = graphql.ExecutePlan(plan, graphql.ExecuteParams{Schema: w.Schema, Context: ctx})
+			res = graphql.ExecutePlan(plan, graphql.ExecuteParams{Schema: w.Schema, Args: vars, Context: ctx})
 		} else {
-			res = graphql.Do(graphql.Params{Schema: w.Schema, RequestString: sc.Query, Context: ctx})
+			res = graphql.Do(graphql.Params{Schema: w.Schema, RequestString: sc.Query, VariableValues: vars, Context: ctx})
 		}
 	}()
 	log, fired, _, _ := rc.Snapshot()
@@ -592,7 +616,7 @@ func (c04) Run(t TestingT, scn json.RawMessage, tape *Tape) *Outcome {
 		named := namedOf(typ)
 		hard, needErr, deferred := false, true, false
 		switch kind {
-		case FErr, FValErr, FPanicErr, FPanicStr, FPanicInt, FNotIter, FRTNil, FRTWrong, FRTPanic, FITFalse, FITPanic, FSerPanic:
+		case FErr, FValErr, FPanicErr, FPanicStr, FPanicInt, FNotIter, FRTNil, FRTWrong, FRTPanic, FITFalse, FITPanic, FSerPanic, FForeignErr:
 			hard = true
 		case "T:" + FErr, "T:" + FPanicErr, "T:" + FValErr:
 			hard, deferred = true, true
@@ -713,7 +737,8 @@ func (c04) Run(t TestingT, scn json.RawMessage, tape *Tape) *Outcome {
 			typeAt[k] = v
 		}
 		rc.mu.Unlock()
-		if msg := CheckSelectedKeys(doc, "", nil, ci.Root, dec.Data, typeAt, w.Possible); msg != "" {
+		keyVars := map[string]interface{}{"no": false, "yes": true} // supplied or defaulted: same values
+		if msg := CheckSelectedKeys(doc, "", keyVars, ci.Root, dec.Data, typeAt, w.Possible); msg != "" {
 			o.Violate("C04/unselected-or-missing-key", "%s\n response: %s", msg, raw)
 		}
 	}
